@@ -151,17 +151,20 @@ def handleMethods (j : Json) : IO Unit := do
   emit case ok (!all || ok) s!"methods.{jstr (jget j "engine")}" (if !all || ok then "" else "complete-answer-not-recorded-as-success")
     (if ok then "" else s!"{jstr (jget j "engine")}: {jnat (jget impl "sent")} requests {jstrList (jget impl "seen")}, {n} answered 200 and received in full; [total, ok, failed] global {(jget impl "global").compress} engine {(jget impl "engine").compress} endpoint {(jget impl "per_endpoint").compress}")
 
-def handle (vs : Variants) (j : Json) : IO Unit := do
-  if jstr (jget j "kind") == "bursts" then
-    handleBursts j; return
-  if jstr (jget j "kind") == "methods" then
-    handleMethods j; return
-  let case := jnat (jget j "case")
-  let sc := jget j "scenario"
-  let impl := jget j "impl"
-  let family := jstr (jget j "family")
-  if jstr (jget impl "start_err") != "" then
-    emit case false true "start-error" "" (jstr (jget impl "start_err")); return
+/-- What the judgement of one counters scenario (a case of its own, or one step of a history) comes to. -/
+structure Verdict where
+  agree  : Bool
+  spec   : Bool
+  branch : String
+  sig    : String
+  note   : String
+  model  : Json
+
+/-- One counters scenario `sc` and what the implementation did (`impl`): the property's clauses on the implementation's
+    numbers against the harness's tally (`spec`, `sig`), and the model's numbers against the implementation's (`agree`).
+    `scopes`: additionally demand that the increase of the global scope is the sum of the increases of the per-endpoint
+    scopes (histories, where the per-endpoint numbers are the step's own increase). -/
+def judge (vs : Variants) (family : String) (sc impl : Json) (scopes : Bool := false) : Verdict := Id.run do
   let eps := parseEps sc
   let balancer := jstr (jget sc "balancer")
   let route := jstr (jget sc "route")
@@ -217,10 +220,14 @@ def handle (vs : Variants) (j : Json) : IO Unit := do
   -- streaming translation: the client was answered 200 + a well-formed (empty) message although no backend served it (the C05 finding)
   let answered200 : Int := ((reqs.zip saw).filter (fun (r, c) => isSuccessResponse c && route == "anthropic-stream" &&
       (match (contactedOf r).getLast? with | some b => kindOf eps b != "ok" | none => true))).length
-  let spec := pQuiet && midOk && pCollector && pTranslator && pEngine && pOnce && pSucc && pNoErr && pTrSucc
+  -- "every attempt is recorded exactly once" at the global scope and at its endpoint's: what the global scope gained
+  -- is what the endpoints' scopes gained together (the collector records nothing without an endpoint)
+  let pScopes := !scopes || scopesAgree (gT, gO, gF) perEp
+  let spec := pQuiet && midOk && pCollector && pTranslator && pEngine && pOnce && pScopes && pSucc && pNoErr && pTrSucc
   let sig := if !pQuiet then "gauge-not-zero-at-quiescence" else if !midOk then "gauge-differs-from-in-flight"
     else if !pCollector then "collector-not-conserved" else if !pTranslator then "translator-not-conserved"
     else if !pOnce then "attempt-not-recorded-exactly-once"
+    else if !pScopes then "global-scope-differs-from-sum-of-endpoint-scopes"
     else if (!pSucc || !pNoErr) && aborted > 0 && gO == okResponses + errRelayed + aborted then "client-abort-recorded-as-success"
     else if (!pSucc || !pNoErr) && errRelayed > 0 && gO == okResponses + errRelayed then "error-status-recorded-as-success"
     else if (!pSucc || !pNoErr) && answered200 > 0 && gO + answered200 == okResponses + errRelayed then "failed-stream-answered-200-by-translator"
@@ -256,12 +263,140 @@ def handle (vs : Variants) (j : Json) : IO Unit := do
   let multi := chosen.any (fun t => attempts t > 1)
   let branch := s!"{family}.{route}.{balancer}" ++ (if multi then ".failover" else "") ++ (if clients > 1 then ".concurrent" else "")
     ++ (if idleNs > 0 then (if idleNs > Olla.Gen.Retry.collectorEndpointTTL then ".idle-past-ttl" else ".idle") else "")
-  emit case agree spec branch sig
+  return { agree := agree, spec := spec, branch := branch, sig := sig, model := toJson (sums.take 4), note :=
     (if agree && spec then "" else
       s!"{jstr (jget sc "engine")}/{balancer}/{route} kinds {kinds} clients {clients}{if gated then " gated" else ""}: gauges at quiescence {gaugesFinal}" ++
       (if jisNull mid then "" else s!", mid-flight gauges {iMid} vs in flight {eps.map (fun e => firstAt e.idx)}") ++
-      s!", collector [total,ok,failed] [{gT},{gO},{gF}], engine [{eT},{eO},{eF}], per endpoint {perEp.map (fun (t, o, f) => [t, o, f])}, translator [{tT},{tO},{tF}]; clients saw (status, in full) {(saw.map (fun c => (c.status, c.inFull))).eraseDups}; success responses {(saw.filter isSuccessResponse).length}; model totals {sums.take 4} gauges {mGaugesFinal} mid {mMid}")
-    (toJson (sums.take 4))
+      s!", collector [total,ok,failed] [{gT},{gO},{gF}], engine [{eT},{eO},{eF}], per endpoint {perEp.map (fun (t, o, f) => [t, o, f])}, translator [{tT},{tO},{tF}]; clients saw (status, in full) {(saw.map (fun c => (c.status, c.inFull))).eraseDups}; success responses {(saw.filter isSuccessResponse).length}; model totals {sums.take 4} gauges {mGaugesFinal} mid {mMid}") }
+
+/-- One line describing a step of a history. -/
+def describeStep (st : Json) : String :=
+  let op := jstr (jget st "op")
+  if op == "traffic" then
+    let sc := jget st "scenario"
+    let eps := parseEps sc
+    let ks := eps.map (fun e => e.name ++ ":" ++ e.kind ++ (if e.resp.status != 200 then toString e.resp.status else "") ++ (if statusOf e == "healthy" then "" else "(" ++ statusOf e ++ ")"))
+    s!"{jstr (jget sc "route")} x{jnat (jget sc "clients")}" ++ (if jbool (jget sc "gated") then " gated" else "") ++ (if jbool (jget sc "abort") then " abort" else "")
+      ++ (if jbool (jget sc "flap") then " +flap" else "") ++ (if jnat (jget sc "uptime_min") > 0 then s!" +pass@{jnat (jget sc "uptime_min")}min" else "") ++ " " ++ String.intercalate "," ks
+  else if op == "flap" then "flap" else s!"{op} {jnat (jget st "minutes")}min"
+
+/-- kind "history": one long-lived stack taken through a sequence of different scenarios, silences, clean-up passes and
+    health-check flaps.  Every traffic step is judged by `judge` — the clauses of the single-scenario cases, on the step's
+    own increase of the counters, plus global = sum of endpoints —; after every other step nothing is in flight, so every
+    gauge reads 0.  The first step that fails gives the case its verdict; the note lists the history up to it. -/
+def handleHistory (vs : Variants) (j : Json) : IO Unit := do
+  let case := jnat (jget j "case")
+  let impl := jget j "impl"
+  if jstr (jget impl "start_err") != "" then
+    emit case false true "start-error" "" (jstr (jget impl "start_err")); return
+  let steps := jarr (jget (jget j "history") "steps")
+  let obs := jarr (jget impl "steps")
+  let names := jstrList (jget (jget j "history") "names")
+  let tag := s!"history.{jstr (jget j "engine")}.{jstr (jget j "balancer")}"
+  let mut judged := 0
+  let mut i := 0
+  for (st, o) in steps.zip obs do
+    let told := String.intercalate " | " (((steps.take (i + 1)).zipIdx).map (fun (s, k) => s!"{k}: {describeStep s}"))
+    if jstr (jget o "op") == "traffic" then
+      let im := jget o "impl"
+      if jstr (jget im "not_judged") != "" then
+        break
+      let v := judge vs "history" (jget st "scenario") im true
+      judged := judged + 1
+      if !(v.agree && v.spec) then
+        emit case v.agree v.spec (tag ++ "." ++ v.branch) v.sig s!"step {i} of the history [{told}]: {v.note}" v.model
+        return
+    else
+      let gs : List Int := names.map (fun n => jint (jget (jget o "gauges") n))
+      judged := judged + 1
+      if !(quiescent gs) then
+        emit case true false tag "gauge-not-zero-at-quiescence" s!"step {i} of the history [{told}]: nothing in flight, gauges {gs}"
+        return
+    i := i + 1
+  let stopped := jstr (jget impl "stopped")
+  emit case true true tag "" (if stopped == "" then "" else s!"judged {judged} of {steps.length} steps; not judged further: {stopped}")
+
+/-- kind "collector-history": one collector fed overlapping attempts on many endpoints over simulated hours (see the
+    harness).  After every operation: the gauge of every endpoint equals its attempts in flight (`gaugeMatches`; an endpoint
+    that is not listed has neither); the global scope is conserved and has recorded every finished attempt once; a finished
+    attempt's endpoint has a record, conserved, that gained exactly this attempt.  Model: the collector of
+    `Olla.Model.Counters` (`cstep`, the clean-up pass run from the recording step when its interval has elapsed). -/
+def handleCollector (j : Json) : IO Unit := do
+  let case := jnat (jget j "case")
+  let impl := jget j "impl"
+  let ops := jarr (jget impl "ops")
+  let identity := jbool (jget impl "identity")
+  let ttl := Olla.Gen.Retry.collectorEndpointTTL
+  let iv := Olla.Gen.Retry.collectorCleanupInterval
+  let minute : Int := 60000000000
+  let tag := s!"collector-history.{if jnat (jget impl "endpoints") > 50 then "above" else "within"}-tracked-limit"
+  let mut st := CState.empty
+  let mut t : Int := 0
+  let mut last : Int := 0
+  let mut finished : Int := 0
+  let mut okN : Int := 0
+  let mut i := 0
+  for o in ops do
+    let op := jstr (jget o "op")
+    let e := jnat (jget o "e")
+    let d : Int := jint (jget o "min") * minute
+    let mut bad := ""
+    if op == "open" then
+      st := cstep activeCleanup ttl st (.ev (.inc e) t)
+    else if op == "finish" then
+      let ok := jbool (jget o "ok")
+      finished := finished + 1
+      okN := okN + (if ok then 1 else 0)
+      st := cstep activeCleanup ttl st (.ev (if ok then .recSuccess e else .recFailure e) t)
+      if t - last ≥ iv then
+        st := cstep activeCleanup ttl st (.sweep t)
+        last := t
+      st := cstep activeCleanup ttl st (.ev (.dec e) t)
+      let (rt, ro, rf) := stats3 (jget o "row")
+      let gain := jintList (jget o "gain")
+      if !jbool (jget o "row_present") then bad := "attempt-not-recorded-exactly-once"
+      else if !conserved rt ro rf then bad := "collector-not-conserved"
+      else if identity && gain != (if ok then [1, 1, 0] else [1, 0, 1]) then bad := "attempt-not-recorded-exactly-once"
+    else if op == "age" then
+      t := t + d
+    else
+      last := last - d
+      if t - last ≥ iv then
+        st := cstep activeCleanup ttl st (.sweep t)
+        last := t
+    let watch := (jarr (jget o "watch")).map jintList
+    let gaugesOk := watch.all (fun w => gaugeMatches (w.getD 2 0) (w.getD 1 0))
+    let (gT, gO, gF) := stats3 (jget o "global")
+    let globalOk := conserved gT gO gF && recordedOnce finished gT && gO == okN
+    let agree := watch.all (fun w => reported st (w.getD 0 0).toNat == w.getD 2 0)
+    let sig := if !gaugesOk then "gauge-differs-from-in-flight" else if bad != "" then bad
+      else if !globalOk then "collector-not-conserved" else ""
+    if sig != "" || !agree then
+      let told := String.intercalate " " (((ops.take (i + 1)).reverse.take 40).reverse.map (fun o =>
+        let op := jstr (jget o "op")
+        if op == "open" then s!"open({jnat (jget o "e")})" else if op == "finish" then s!"finish({jnat (jget o "e")},{if jbool (jget o "ok") then "ok" else "error"})"
+        else s!"{op}({jnat (jget o "min")}min)"))
+      emit case agree (sig == "") tag sig s!"one collector, {jnat (jget impl "endpoints")} endpoints, operation {i} (the last 40: {told}): [endpoint, in flight, gauge] {watch}; global [total,ok,failed] [{gT},{gO},{gF}] after {finished} finished attempts ({okN} ok); the attempt's endpoint: record present {jbool (jget o "row_present")}, its numbers {(jget o "row").compress}, gained {(jget o "gain").compress}; model gauges {watch.map (fun w => reported st (w.getD 0 0).toNat)}"
+      return
+    i := i + 1
+  let rowsOk := (jarr (jget impl "final_rows")).all (fun r => let (a, b, c) := stats3 r; conserved a b c)
+  emit case true rowsOk tag (if rowsOk then "" else "collector-not-conserved") (if rowsOk then "" else s!"per-endpoint records at the end: {(jget impl "final_rows").compress}")
+
+def handle (vs : Variants) (j : Json) : IO Unit := do
+  if jstr (jget j "kind") == "collector-history" then
+    handleCollector j; return
+  if jstr (jget j "kind") == "bursts" then
+    handleBursts j; return
+  if jstr (jget j "kind") == "methods" then
+    handleMethods j; return
+  if jstr (jget j "kind") == "history" then
+    handleHistory vs j; return
+  let case := jnat (jget j "case")
+  let impl := jget j "impl"
+  if jstr (jget impl "start_err") != "" then
+    emit case false true "start-error" "" (jstr (jget impl "start_err")); return
+  let v := judge vs (jstr (jget j "family")) (jget j "scenario") impl
+  emit case v.agree v.spec v.branch v.sig v.note v.model
 
 def main : IO Unit := do
   let vs ← variantsFromEnv
